@@ -505,6 +505,15 @@ def _spawn(scen, tmpdir, idx):
     return obs
 
 
+def _timeout_exc():
+    """the framework's Timeout (exit 2); common.py runs as __main__"""
+    import __main__
+    t = getattr(__main__, "Timeout", None)
+    if t is None:
+        from common import Timeout as t
+    return t
+
+
 def gen_scenario(rng, W, quick, variant=None):
     N = rng.randint(50, 90) if quick else rng.randint(50, 200)
     shape = rng.choice(["uniform", "zero", "long-first", "bimodal", "uniform"])
@@ -914,8 +923,7 @@ def run_runner(ctx):
             results[i] = _spawn(scens[i], tmpdir, 1000 + i)
         for i, (scen, obs) in enumerate(zip(scens, results)):
             if obs.get("status") == "child-timeout":
-                from common import Timeout
-                raise Timeout()
+                raise _timeout_exc()()
             fails, info = evaluate(scen, obs)
             fails += check_against_model(ctx, scen, obs, mut_rngs[i], n_mut)
             if "infrastructure" in info:
